@@ -190,8 +190,8 @@ def fanout_tables(prog, chk):
     def drive(fn, state, count):
         hn, rn = fn.params[0]["n"], fn.params[1]["n"]
         inputs = {hn: Ptr("has"), rn: Ptr("R"), "has->ctx": Ptr("ctx"), "has->respQueue": Ptr("RQ"), "HAREQ->expectedRespCount": count,
-                  "HAREQ->asyncHandle": Ptr("H"), "H->state": state, "H->err": 0x405 if state == ERRS else 0, "H->errMsg": 0, "R->err": 0x406, "R->errMsg": 0,
-                  "R->respCtx": Ptr("RESPCTX"), "H->respCtx": 0, "HAREQ->hasReq": 1,
+                  "HAREQ->asyncHandle": Ptr("H"), "H->state": state, "H->err": 0x405 if state == ERRS else 0, "H->errMsg": 0, "R->err": 0x406 if fn.name == "handleErrorResponse" else 0, "R->errMsg": 0,
+                  "R->respCtx": Ptr("RESPCTX"), "H->respCtx": 0, "HAREQ->hasReq": 1, "H->parentId": 11, "R->parentId": 22, "H->errExt": 0, "R->errExt": 0,
                   # the endpoint's own handle: the dispatcher (responseHandler) calls the error handler only for a handle in state ERROR and the
                   # response handler only for RESPONSE_RECEIVED; its state says nothing about the request it is a copy of
                   "R->state": ERRS if fn.name == "handleErrorResponse" else RECV}
@@ -204,8 +204,16 @@ def fanout_tables(prog, chk):
             out = strip(node["a"][1])
             I.write(p, lvalue_key(out["e"], I.fn), I.read(p, "%s->state" % args[0].what) if isinstance(args[0], Ptr) else TOP)
             return 0
+        notices = []
+
+        def notice_(I, p, node, args):
+            # (service, request handle, origin, error, extended error, message): refuses "no error", as the function itself does
+            if args[0] == 0 or args[1] == 0 or args[3] == 0:
+                return 0x100
+            notices.append(tuple(args[1:4]))
+            return 0
         ov = {"KSI_AsyncHandle_getRequestCtx": getctx, "KSI_AsyncHandle_getState": getstate, "KSI_AsyncHandle_ref": lambda I, p, n, a: a[0],
-              "KSI_Utf8String_ref": lambda I, p, n, a: a[0]}
+              "KSI_Utf8String_ref": lambda I, p, n, a: a[0], "KSI_HighAvailabilityService_reportErrorNotice": notice_}
         I = Interp(fn, inputs=inputs, call_model=succeed_model(prog, ov), on_unknown="stop", prog=prog)
         paths = I.run()
         chk.paths += len(paths)
@@ -215,7 +223,7 @@ def fanout_tables(prog, chk):
         cnt = [t[2] for t in q.stores("HAREQ->expectedRespCount")]
         st = [t[2] for t in q.stores("H->state")]
         app = [c for c in q.calls("KSI_AsyncHandleList_append") if c[2][0] == Ptr("RQ") and c[2][1] == Ptr("H")]
-        notice = q.calls("KSI_HighAvailabilityService_reportErrorNotice")
+        notice = list(notices)
         errs = [t[2] for t in q.stores("H->err")]
         resp = [t[2] for t in q.stores("H->respCtx")]
         return q, cnt, st, app, notice, errs, resp
@@ -226,14 +234,15 @@ def fanout_tables(prog, chk):
         q, cnt, st, app, notice, errs, resp = drive(fr, state, count)
         if state in (WAIT, ERRS):
             want = "completed with this response: state RESPONSE_RECEIVED, response context taken over, queued once" + (", earlier error reported as a notice and cleared" if state == ERRS else "")
+            # the notice reports the error the request had recorded (from the endpoint that failed earlier: origin 11, error 0x405)
             ok = cnt == [count - 1] and st == [RECV] and len(app) == 1 and resp == [Ptr("RESPCTX")] and q.ret == 0 and \
-                ((state == ERRS and len(notice) == 1 and errs[-1:] == [0]) or (state == WAIT and not notice))
+                ((state == ERRS and notice == [(Ptr("H"), 11, 0x405)] and errs[-1:] == [0]) or (state == WAIT and not notice))
         else:
             want = "discarded: the request was completed by an earlier response (no state change, not queued again, response context not replaced)"
             ok = cnt == [count - 1] and not st and not app and not resp and q.ret == 0
         chk.ob("C15.complete", "valid-response[request %s,%d outstanding]" % (SN[state], count), ok,
-               "expected %s; source: outstanding %s, state stores %s, queued %d, notices %d, response context stores %s, status %s"
-               % (want, cnt, [SN.get(s, s) for s in st], len(app), len(notice), resp, q.ret), loc=fr.loc(), fn=fr)
+               "expected %s; source: outstanding %s, state stores %s, queued %d, notices %s, response context stores %s, status %s"
+               % (want, cnt, [SN.get(s, s) for s in st], len(app), notice, resp, q.ret), loc=fr.loc(), fn=fr)
     for state, count in itertools.product((WAIT, ERRS, RECV), (1, 2)):
         q, cnt, st, app, notice, errs, resp = drive(fe, state, count)
         last = count - 1 == 0
@@ -242,10 +251,10 @@ def fanout_tables(prog, chk):
             ok = cnt == [count - 1] and st == [ERRS] and errs == [0x406] and not notice and len(app) == (1 if last else 0) and q.ret == 0
         elif state == ERRS:
             want = "reported as a separate error notice" + (", request completed with the recorded error (no endpoint left)" if last else ", request keeps waiting")
-            ok = cnt == [count - 1] and not st and not errs and len(notice) == 1 and len(app) == (1 if last else 0) and q.ret == 0
+            ok = cnt == [count - 1] and not st and not errs and notice == [(Ptr("H"), 22, 0x406)] and len(app) == (1 if last else 0) and q.ret == 0
         else:
             want = "reported as a separate error notice only; the completed request is not touched and not queued again"
-            ok = cnt == [count - 1] and not st and not errs and len(notice) == 1 and not app and q.ret == 0
+            ok = cnt == [count - 1] and not st and not errs and notice == [(Ptr("H"), 22, 0x406)] and not app and q.ret == 0
         chk.ob("C15.complete", "error-response[request %s,%d outstanding]" % (SN[state], count), ok,
-               "expected %s; source: outstanding %s, state stores %s, error stores %s, queued %d, notices %d, status %s"
-               % (want, cnt, [SN.get(s, s) for s in st], errs, len(app), len(notice), q.ret), loc=fe.loc(), fn=fe)
+               "expected %s; source: outstanding %s, state stores %s, error stores %s, queued %d, notices %s, status %s"
+               % (want, cnt, [SN.get(s, s) for s in st], errs, len(app), notice, q.ret), loc=fe.loc(), fn=fe)
